@@ -73,6 +73,9 @@ class _CtxFrame:
         self.body, self.entered = body, False
 
 
+_KNOWN_DECORATORS = {'staticmethod', 'classmethod', 'property', 'contextmanager', 'lru_cache', 'cache', 'wraps', 'dataclass', 'total_ordering', 'abstractmethod', 'no_type_check', 'overload', 'final'}
+
+
 def _decorators(node):
     out = set()
     for d in getattr(node, 'decorator_list', []):
@@ -383,6 +386,25 @@ class PyEval:
             pos = list(args)
             decos = _decorators(node)
             is_static = 'staticmethod' in decos
+            unknown = decos - _KNOWN_DECORATORS
+            if unknown:
+                # a decorator replaces the function by whatever it returns: one the evaluator has no meaning for is a gap of the analysis
+                raise AnalysisError('abstract evaluation: decorator @%s of %s is outside the abstraction' % (sorted(unknown)[0], f))
+            if decos & {'lru_cache', 'cache'} and not getattr(f, 'memo_inner', False):
+                # functools.lru_cache / cache: one result per distinct argument tuple (equality and hash of the arguments are those of the
+                # values - two aware datetimes of one instant are one key), kept for the life of the function
+                memo = self.__dict__.setdefault('_memo', {})
+                try:
+                    key = (id(node), f.recv if not is_static else None, tuple(args), tuple(sorted(kwargs.items())))
+                    hash(key)
+                except TypeError as x_:
+                    raise Raised('TypeError: %s' % x_, self.L(f.mod, node))
+                if key in memo:
+                    return memo[key]
+                g_ = PFunc(self, f.mod, f.node, f.cls, f.closure, f.recv)
+                g_.memo_inner = True
+                memo[key] = self.apply(g_, args, kwargs, depth)
+                return memo[key]
             if 'contextmanager' in decos and _is_generator(node) and not getattr(f, 'entering', False):
                 return _CtxGen(f, list(args), dict(kwargs))          # runs when the `with` statement enters it
             if f.recv is not None and not is_static:
